@@ -1,6 +1,7 @@
 (* C08 property theorems.  Statements closed by `exact`, each followed by Print Assumptions.
-   The series, the metric and the base forecaster family (`respond p`, `cutoff_after p`: the clone of
-   the base forecaster carrying candidate parameters p, as a function of the calls it receives) are
+   The series, the metric, the forecaster objects F (`respond f`, `cutoff_after f`: an instance with
+   parameters f and no fitted state, as a function of the calls it receives), the candidates P =
+   PARTIAL parameter dicts, `apply_params f p` = clone(f).set_params( **p ) and the base forecaster are
    universally quantified; `evaluate` is C07's model.  `gen_ascending` / `gen_select` are regenerated
    from BaseGridSearch.fit on this run (Site.v). *)
 From Coq Require Import ZArith QArith List Bool.
@@ -33,8 +34,9 @@ Print Assumptions C08_rank_argmin_is_first_best.
 (* best_index_ / best_score_ / best_params_ belong to the first candidate whose mean CV score is
    lowest (loss) or highest (greater_is_better); the rank column ranks in that direction *)
 Theorem C08_best_is_argbest :
-  forall XV tm yv xv metric gib P respond cutoff_after sp st cands s,
-  tune XV tm yv xv metric gib gen_ascending P respond cutoff_after sp st cands = Ok s ->
+  forall XV tm yv xv metric gib F P apply_params respond cutoff_after base sp st cands s,
+  tune XV tm yv xv metric gib gen_ascending F P apply_params respond cutoff_after base sp st cands
+    = Ok s ->
   length (s_means s) = length cands /\
   exists pre m post (cpre : list P) (cbest : P) (cpost : list P),
     s_means s = pre ++ m :: post /\ cands = cpre ++ cbest :: cpost /\ length cpre = length pre /\
@@ -44,54 +46,109 @@ Theorem C08_best_is_argbest :
      then Forall (fun y => (y < m)%Q) pre /\ Forall (fun y => (y <= m)%Q) post
      else Forall (fun y => (m < y)%Q) pre /\ Forall (fun y => (m <= y)%Q) post).
 Proof.
-  exact (fun XV tm yv xv metric gib P respond cutoff_after sp st cands s =>
-           best_is_argbest XV tm yv xv metric gib gen_ascending P respond cutoff_after sp st cands s
-                           bridge_ascending_is_negation).
+  exact (fun XV tm yv xv metric gib F P apply_params respond cutoff_after base sp st cands s =>
+           best_is_argbest XV tm yv xv metric gib gen_ascending F P apply_params respond cutoff_after
+                           base sp st cands s bridge_ascending_is_negation).
 Qed.
 Print Assumptions C08_best_is_argbest.
 
 (* every candidate is evaluated on the same splits, and each cv_results_ mean is the mean score of an
-   independent evaluate() run of that candidate (whose rows C07 characterises) *)
+   independent evaluate() run (whose rows C07 characterises) of a fresh clone of the base forecaster
+   with that candidate's partial parameter dict applied: the run's call trace starts from nothing *)
 Theorem C08_rows_eq_independent_evaluate_same_splits :
-  forall XV tm yv xv metric gib asc P respond cutoff_after sp st cands s,
-  tune XV tm yv xv metric gib asc P respond cutoff_after sp st cands = Ok s ->
+  forall XV tm yv xv metric gib asc F P apply_params respond cutoff_after base sp st cands s,
+  tune XV tm yv xv metric gib asc F P apply_params respond cutoff_after base sp st cands = Ok s ->
   exists ss, splitter_splits sp = Ok ss /\
     Forall2 (fun p mean =>
                exists rows tr,
-                 evaluate XV tm yv xv (respond p) (cutoff_after p) metric sp st = Ok (rows, tr) /\
+                 evaluate XV tm yv xv (respond (apply_params base p))
+                          (cutoff_after (apply_params base p)) metric sp st = Ok (rows, tr) /\
                  mean = qmean (map r_score rows) /\ length rows = length ss /\
                  tr = history XV tm yv xv st (zmin_list (splitter_fh sp)) ss)
             cands (s_means s).
 Proof. exact rows_eq_independent_evaluate. Qed.
 Print Assumptions C08_rows_eq_independent_evaluate_same_splits.
 
+(* candidate isolation: the row of a candidate does not depend on the candidates evaluated before
+   (or after) it -- it is the mean of evaluate() on `apply_params base p`, the same as in the
+   one-candidate search [p]; parameters p does not name come from the base forecaster *)
+Theorem C08_candidate_isolation :
+  forall XV tm yv xv metric gib asc F P apply_params respond cutoff_after base sp st pre p post s,
+  tune XV tm yv xv metric gib asc F P apply_params respond cutoff_after base sp st (pre ++ p :: post)
+    = Ok s ->
+  exists m, fc_mean XV tm yv xv metric F respond cutoff_after sp st (apply_params base p) = Ok m /\
+    nth (length pre) (s_means s) 0%Q = m /\
+    exists s1, tune XV tm yv xv metric gib asc F P apply_params respond cutoff_after base sp st [p]
+               = Ok s1 /\ s_means s1 = [m] /\ s_best s1 = p.
+Proof. exact candidate_isolation. Qed.
+Print Assumptions C08_candidate_isolation.
+
+Theorem C08_candidate_mean_independent_of_other_candidates :
+  forall XV tm yv xv metric gib asc F P apply_params respond cutoff_after base sp st
+         pre p post pre' post' s s',
+  tune XV tm yv xv metric gib asc F P apply_params respond cutoff_after base sp st (pre ++ p :: post)
+    = Ok s ->
+  tune XV tm yv xv metric gib asc F P apply_params respond cutoff_after base sp st (pre' ++ p :: post')
+    = Ok s' ->
+  nth (length pre) (s_means s) 0%Q = nth (length pre') (s_means s') 0%Q.
+Proof. exact candidate_mean_independent_of_other_candidates. Qed.
+Print Assumptions C08_candidate_mean_independent_of_other_candidates.
+
+(* sensitivity: the loop with ONE instance shared by all candidates coincides with the search when all
+   candidates override each other (same parameter names: why ordinary grids do not notice), and is
+   refuted by a list-of-dicts grid whose second dict leaves a parameter of the first alone *)
+Theorem C08_shared_instance_harmless_only_when_overriding :
+  (forall XV tm yv xv metric F P apply_params respond cutoff_after base sp st cands,
+     overriding F P apply_params cands ->
+     shared_means XV tm yv xv metric F P apply_params respond cutoff_after sp st base cands =
+     map (cand_mean XV tm yv xv metric F P apply_params respond cutoff_after base sp st) cands) /\
+  exists (base : fc8) (cands : list (list pset)),
+    let fresh := map (cand_mean Q (fun p => p + 7) (series ex_y) None (metric_of MMAE) fc8 (list pset)
+                                apply8 respond8 cutoff8 base ex_sp Refit) cands in
+    let shared := shared_means Q (fun p => p + 7) (series ex_y) None (metric_of MMAE) fc8 (list pset)
+                               apply8 respond8 cutoff8 ex_sp Refit base cands in
+    resq_eqb (nth 0 fresh Err) (nth 0 shared Err) = true /\
+    resq_eqb (nth 1 fresh Err) (Ok 3%Q) = true /\
+    resq_eqb (nth 1 shared Err) (Ok (11 # 3)%Q) = true /\
+    resq_eqb (nth 1 fresh Err) (nth 1 shared Err) = false.
+Proof.
+  exact (conj shared_instance_harmless_when_overriding shared_instance_breaks_isolation_refuted).
+Qed.
+Print Assumptions C08_shared_instance_harmless_only_when_overriding.
+
 Theorem C08_search_rejects_iff_splitter_rejects :
-  forall XV tm yv xv metric gib asc P respond cutoff_after sp st cands, cands <> [] ->
-  (tune XV tm yv xv metric gib asc P respond cutoff_after sp st cands = Err <->
+  forall XV tm yv xv metric gib asc F P apply_params respond cutoff_after base sp st cands,
+  cands <> [] ->
+  (tune XV tm yv xv metric gib asc F P apply_params respond cutoff_after base sp st cands = Err <->
    splitter_splits sp = Err).
 Proof. exact tune_rejects. Qed.
 Print Assumptions C08_search_rejects_iff_splitter_rejects.
 
-(* refit: the tuner answers predict / update / cutoff exactly as a forecaster carrying the best
-   parameters that was fitted on the whole series *)
+(* refit: the tuner answers predict / update / cutoff exactly as a fresh clone of the base forecaster
+   with the best parameters set (no object used during the search) that was fitted on the whole
+   series and received nothing else *)
 Theorem C08_refit_equals_direct_forecaster :
-  forall XV tm yv xv metric gib asc P respond cutoff_after sp st cands fhabs t,
-  tuner_fit XV tm yv xv metric gib asc P respond cutoff_after sp st cands true fhabs = Ok t ->
-  exists s, tune XV tm yv xv metric gib asc P respond cutoff_after sp st cands = Ok s /\
+  forall XV tm yv xv metric gib asc F P apply_params respond cutoff_after base sp st cands fhabs t,
+  tuner_fit XV tm yv xv metric gib asc F P apply_params respond cutoff_after base sp st cands true
+            fhabs = Ok t ->
+  exists s, tune XV tm yv xv metric gib asc F P apply_params respond cutoff_after base sp st cands
+            = Ok s /\
     tn_search XV P t = s /\
     let nn := match sp with SWindow _ c => n c | SSingle nn _ _ => nn end in
     forall script,
-      tuner_run XV P respond cutoff_after t script =
-      direct_run XV P respond cutoff_after (s_best s)
+      tuner_run XV F P apply_params respond cutoff_after base t script =
+      direct_run XV F respond cutoff_after (apply_params base (s_best s))
         [Fit (y_at tm yv (zrange 0 nn 1)) (x_at XV tm xv (zrange 0 nn 1)) fhabs] script.
 Proof. exact refit_equals_direct_forecaster. Qed.
 Print Assumptions C08_refit_equals_direct_forecaster.
 
 Theorem C08_no_refit_raises_not_fitted :
-  forall XV tm yv xv metric gib asc P respond cutoff_after sp st cands fhabs t,
-  tuner_fit XV tm yv xv metric gib asc P respond cutoff_after sp st cands false fhabs = Ok t ->
+  forall XV tm yv xv metric gib asc F P apply_params respond cutoff_after base sp st cands fhabs t,
+  tuner_fit XV tm yv xv metric gib asc F P apply_params respond cutoff_after base sp st cands false
+            fhabs = Ok t ->
   tn_calls XV P t = [] /\
-  forall script, tuner_run XV P respond cutoff_after t script = map (fun _ => ANotFitted) script.
+  forall script, tuner_run XV F P apply_params respond cutoff_after base t script
+                 = map (fun _ => ANotFitted) script.
 Proof. exact no_refit_raises_not_fitted. Qed.
 Print Assumptions C08_no_refit_raises_not_fitted.
 
@@ -105,11 +162,12 @@ Theorem C08_old_expression_refuted :
 Proof. exact (conj old_ascending_always_truthy_refuted best_is_argbest_refuted). Qed.
 Print Assumptions C08_old_expression_refuted.
 
-(* hypotheses are satisfiable by a non-trivial search: three candidates, a tie for the worst rank,
-   the winner is not the first candidate *)
+(* hypotheses are satisfiable by a non-trivial search: a list-of-dicts grid [{d: -2}; {e: 0};
+   {d: -2, tag: 1}] over a base double (three candidates naming different parameters, a tie for the
+   worst rank, the winner is the candidate that leaves d at the base value) *)
 Example C08_nonvacuous :
   exists s answers,
-    model_tune ex_sp 7 ex_y None Refit MMAE false ex_cands true [17]
+    model_tune ex_sp 7 ex_y None Refit MMAE false ex_base ex_cands true [17]
                [OpPredict [17; 18] None; OpCutoff] = Ok (s, answers) /\
     s_best_index s = 1 /\ length (s_means s) = 3%nat /\
     map (fun r => Qeq_bool r 1 || Qeq_bool r (5 # 2)) (s_ranks s) = [true; true; true] /\
